@@ -854,7 +854,7 @@ def configs(ctx):
                                       "units"))
                 # next to a statement in the variable's own unit, and two
                 # different conversions next to each other
-                old = [s2 for s2 in statements(fmt)[2]]
+                old = statements(fmt)[2]
                 partner = old[(n * 5 + ctx.seed) % len(old)]
                 others = [f for f in unit_forms_for(fmt) if f != form]
                 st2 = (("+=", "-=")[n % 2], others[(n + ctx.seed)
